@@ -114,3 +114,26 @@ pub open spec fn fwd_ok(request: http::Request<http_body_util::Full<hyper::body:
     &&& client_headers_kept(h, orig.headers0)                    // C14
     &&& (auth_unsigned(h, orig.headers0) || exists|guid: Seq<char>, key: Seq<char>| #[trigger] auth_signed(request, guid, key))   // C05 / C04
 }
+
+
+// ---- C01: what the client gets when the request is NOT relayed -------------------------------------------------
+pub uninterp spec fn uri_is_str(u: http::Uri, s: Seq<char>) -> bool;   // Uri == &str (http's PartialEq<&str> for Uri)
+pub open spec fn is_provision_query(u: http::Uri) -> bool { uri_is_str(u, "/provision"@) }
+// the refusal status, in the order the statement lists the cases:
+//   path containing '..' -> 404; connection not attributed (no destination / no claims) -> 421;
+//   policy lookup failure -> 500; enforced denial -> 403
+pub open spec fn refusal_status(tcp: TcpConnectionContext, url: http::Uri, kk: KeyKeeperSharedState) -> int {
+    if contains_sub(uri_path(url), ".."@) { 404 }
+    else if tcp.destination_ip is None || tcp.claims is None { 421 }
+    else if policy_of(kk, endpoint_of(ip_string(tcp.destination_ip->0), tcp.destination_port)) is Err { 500 }
+    else { 403 }
+}
+pub open spec fn auth_result(tcp: TcpConnectionContext, url: http::Uri, kk: KeyKeeperSharedState) -> AuthorizeResult {
+    let ep = endpoint_of(ip_string(tcp.destination_ip->0), tcp.destination_port);
+    auth_table(ep, tcp.claims->0.runAsElevated, rule_view(policy_of(kk, ep)->Ok_0, url, tcp.claims->0))
+}
+// the request reaches the authorization decision (everything before it succeeded)
+pub open spec fn reaches_authorization(tcp: TcpConnectionContext, url: http::Uri, kk: KeyKeeperSharedState) -> bool {
+    !contains_sub(uri_path(url), ".."@) && !is_provision_query(url) && tcp.destination_ip is Some && tcp.claims is Some
+    && policy_of(kk, endpoint_of(ip_string(tcp.destination_ip->0), tcp.destination_port)) is Ok
+}
